@@ -59,7 +59,7 @@ func init() {
 	register(&Prop{
 		ID:         "C02",
 		Title:      "Query and Scan return exactly the matching items, in sort-key order",
-		Decided:    "the structural conditions under which 'iterate the key list once and emit what matches' is exact: (R1) the comparator that orders secondary-index entries is a lexicographic strict order by (index key, primary key) with both sides of every comparison using the same projection, reversed only under the direction flag; (R2) in the search loop the only append to the result is governed exactly by the per-item verdict, which depends on both the key/filter verdict and the 'start position passed' flag; (R3) the filter verdict is conjoined with the key-condition verdict (never overwrites or disjoins it) and a Scan seeds the verdict from the Scan flag only; (R4) in the four client sites Count derives from the length of, and Items from the conversion of, the same first result of SearchData; (R5) the QueryInput built by each site carries IndexName, key condition, filter, values, names, direction (default true when absent) and Scan/true for scans; (R6) when an index is named its entry list is (re)built once before the loop with the same direction value that drives the position arithmetic; (R7) expression kinds are paired with their expression texts (= C20.R5); (R10) a search walks SortedKeys and reads Data: every mutator of the pair preserves I1 (= C01.R2) – a key spliced out of the list while its item stays stored is an item no Query or Scan returns; (R11) Query and Scan over an index are not read-only in the engine (startSearch rebuilds index.sortedRefs, getPrimaryKey consumes it): every access to table and index state is made with the exclusive mutex held (= C11.L1) – a shared read lock lets two searches destroy each other's cursor and lose items; (R12) the search state is closed (= C01.R12, C03.R10): no cached entry list or memo that a write can leave stale; (R13) the prefix and substring predicates used by key conditions and filters are the library ones with operands in order (= C06.R13); (R14) decision table of the per-item verdict (= C05.R9).",
+		Decided:    "the structural conditions under which 'iterate the key list once and emit what matches' is exact: (R1) the comparator that orders secondary-index entries is a lexicographic strict order by (index key, primary key) with both sides of every comparison using the same projection, reversed only under the direction flag; (R2) in the search loop the only append to the result is governed exactly by the per-item verdict, which depends on both the key/filter verdict and the 'start position passed' flag; (R3) the filter verdict is conjoined with the key-condition verdict (never overwrites or disjoins it) and a Scan seeds the verdict from the Scan flag only; (R4) in the four client sites Count derives from the length of, and Items from the conversion of, the same first result of SearchData; (R5) the QueryInput built by each site carries IndexName, key condition, filter, values, names, direction (default true when absent) and Scan/true for scans; (R6) when an index is named its entry list is (re)built once before the loop with the same direction value that drives the position arithmetic; (R7) expression kinds are paired with their expression texts (= C20.R5); (R10) a search walks SortedKeys and reads Data: every mutator of the pair preserves I1 (= C01.R2) – a key spliced out of the list while its item stays stored is an item no Query or Scan returns; (R11) Query and Scan over an index are not read-only in the engine (startSearch rebuilds index.sortedRefs, getPrimaryKey consumes it): every access to table and index state is made with the exclusive mutex held (= C11.L1) – a shared read lock lets two searches destroy each other's cursor and lose items; (R12) the search state is closed (= C01.R12, C03.R10): no cached entry list or memo that a write can leave stale; (R13) the prefix and substring predicates used by key conditions and filters are the library ones with operands in order (= C06.R13); (R14) decision table of the per-item verdict (= C05.R9); (R15) nothing on the search path modifies an item map it did not build; (R16) sparse indexes: the empty key accompanies every error of the key derivation (= C03.R8).",
 		NotDecided: "the truth value of the conditions (C06); the position arithmetic of GetKeyAt and of the index cursor (value-level); behaviour for an unknown index name.",
 		Rules: []RuleDef{
 			{ID: "R1", Desc: "index comparator is a lexicographic strict order on (index key, primary key) (comparator lint)", Run: c02R1},
@@ -94,6 +94,8 @@ func init() {
 			}, nil)},
 			{ID: "R12", Desc: "a search reads no state beyond the confirmed fields of table and index (= C01.R12 + C03.R10)", Run: func(e *Engine) { stateModelClosed(e, "R12", func(k string) bool { return k == "core.index" || k == "core.Table" }) }},
 			{ID: "R13", Desc: "begins_with in a key condition or filter selects exactly the items whose value has the prefix, the value equal to the prefix included (= C06.R13)", Run: aliasRule("R13", c06R13, nil)},
+			{ID: "R15", Desc: "a search is read-only on the items it walks: no function on the search path writes or deletes entries of an item map it did not build (T-PURE)", Run: c02R15},
+			{ID: "R16", Desc: "an item without the key of a secondary index is not in that index: the key derivation hands back the EMPTY key with every error (= C03.R8) – a partial key would list the item under it and index reads would return it", Run: aliasRule("R16", c03R8, nil)},
 		},
 	})
 }
@@ -1156,4 +1158,94 @@ func ordStr(o int) string {
 func isBoolType(t types.Type) bool {
 	b, ok := t.Underlying().(*types.Basic)
 	return ok && b.Kind() == types.Bool
+}
+
+// c02R15: a search is read-only on the items it walks. No function on the search path (everything SearchData reaches in
+// the engine) updates or deletes entries of an item map that it did not build itself: the maps it is handed are the
+// stored items or the ones already placed in the result page – stripping the last item down to its key attributes "in
+// place" empties the item the caller is about to receive.
+func c02R15(e *Engine) {
+	sd := e.fn("core", "Table.SearchData")
+	if !e.anchor("R15", "core.Table.SearchData", sd == nil) {
+		return
+	}
+	n := 0
+	for _, fn := range sortedFns(e, e.reach(sd)) {
+		if e.fnRole(fn) != "core" {
+			continue
+		}
+		n++
+		bad := ""
+		instrs(fn, func(in ssa.Instruction) {
+			var m ssa.Value
+			switch x := in.(type) {
+			case *ssa.MapUpdate:
+				m = x.Map
+			case *ssa.Call:
+				if staticCalleeName(x) == "builtin.delete" {
+					m = x.Call.Args[0]
+				}
+			}
+			if m == nil || !strings.Contains(typeName(m.Type()), "map[string]*") || !strings.HasSuffix(typeName(m.Type()), "types.Item") {
+				return
+			}
+			// built here: a map made in this function (or by a copy function called here) – never a parameter, a stored
+			// item or something a callee handed back
+			var local func(v ssa.Value, d int) bool
+			local = func(v ssa.Value, d int) bool {
+				if d > 6 {
+					return false
+				}
+				switch x := strip(v).(type) {
+				case *ssa.MakeMap:
+					return true
+				case *ssa.Phi:
+					for _, ed := range x.Edges {
+						if !local(ed, d+1) {
+							return false
+						}
+					}
+					return true
+				case *ssa.Call:
+					g := x.Call.StaticCallee()
+					if g != nil && isMapCopyFunc(g) {
+						return true
+					}
+					// a helper that builds and returns a new map (getKeyItem)
+					if g != nil && g.Blocks != nil && e.fnRole(g) == "core" {
+						for _, r := range returnsOf(g) {
+							if !local(retVals(r)[0], d+1) {
+								return false
+							}
+						}
+						return true
+					}
+					return false
+				case *ssa.UnOp:
+					if al, ok := x.X.(*ssa.Alloc); ok {
+						for _, st := range storesTo(al) {
+							if !local(st.Val, d+1) {
+								return false
+							}
+						}
+						return len(storesTo(al)) > 0
+					}
+				}
+				return false
+			}
+			fresh := local(m, 0)
+			if !fresh {
+				bad = fmt.Sprintf("%s at %s (the map comes from %s)", map[bool]string{true: "an entry is written", false: "an entry is deleted"}[in.(ssa.Instruction) != nil && func() bool { _, ok := in.(*ssa.MapUpdate); return ok }()], e.ipos(in), strings.Join(e.origins(m), "|"))
+			}
+		})
+		construct := e.fname(fn) + ":search-does-not-modify-items"
+		if bad != "" {
+			e.fail("R15", construct, e.pos(fn.Pos()), "on the search path %s: the item belongs to the table or to the page being returned – the caller receives an item with attributes missing or changed", bad)
+		} else {
+			e.pass("R15", construct, e.pos(fn.Pos()), "no entry of an item map that the function did not build is written or deleted")
+		}
+	}
+	if n < 5 {
+		e.fail("R15", "count:R15", "-", "only %d engine functions on the search path", n)
+	}
 }
